@@ -22,10 +22,30 @@ def to_smt2(axioms, hyps, goal):
     return s.to_smt2()
 
 
+class Lazy:
+    """An obligation still in term form: serialised to SMT-LIB inside the worker process (the pool is forked after the
+    terms were built, so the workers inherit them); serialisation was the serial bottleneck of large checks."""
+
+    def __init__(self, axioms, hyps, goal):
+        self.axioms, self.hyps, self.goal = axioms, hyps, goal
+
+    def text(self):
+        return to_smt2(self.axioms, self.hyps, self.goal)
+
+
+_ITEMS = []
+
+
+def _text(idx):
+    smt = _ITEMS[idx][1]
+    return smt.text() if isinstance(smt, Lazy) else smt
+
+
 def _solve_one(job):
-    idx, smt2, want_model, timeout = job
+    idx, _unused, want_model, timeout = job
     t0 = time.time()
     try:
+        smt2 = _text(idx)
         ctx = z3.Context()
         s = z3.Solver(ctx=ctx)
         s.set('timeout', timeout)
@@ -75,8 +95,8 @@ def _cvc5(smt2, timeout_ms):
 
 
 def _cvc5_job(job):
-    idx, smt2, timeout = job
-    v, t, raw = _cvc5(smt2, timeout)
+    idx, _unused, timeout = job
+    v, t, raw = _cvc5(_text(idx), timeout)
     return idx, v, t, raw
 
 
@@ -109,15 +129,17 @@ def discharge(items, jobs=None, both=False, z3_timeout=None, use_cvc5=True):
     """items: [(label, smt2)] -> [Result]; runs in a process pool."""
     jobs = jobs or min(16, os.cpu_count() or 4)
     z3_timeout = z3_timeout or Z3_TIMEOUT_MS
+    global _ITEMS
     results = [Result(lbl) for lbl, _ in items]
     if not items:
         return results
+    _ITEMS = items                      # inherited by the forked workers; jobs carry indexes only
     with mp.get_context('fork').Pool(min(jobs, len(items))) as pool:
         for idx, verdict, t, model, reason in pool.imap_unordered(
-                _solve_one, [(i, smt, True, z3_timeout) for i, (_, smt) in enumerate(items)]):
+                _solve_one, [(i, None, True, z3_timeout) for i in range(len(items))], chunksize=max(1, len(items) // (jobs * 8))):
             r = results[idx]
             r.z3, r.time, r.model, r.reason = verdict, t, model, reason
-        todo = [(i, items[i][1], CVC5_TIMEOUT_MS) for i, r in enumerate(results)
+        todo = [(i, None, CVC5_TIMEOUT_MS) for i, r in enumerate(results)
                 if both or r.z3 not in ('unsat', 'sat')] if use_cvc5 else []
         if todo:
             for idx, v, t, raw in pool.imap_unordered(_cvc5_job, todo):
